@@ -38,11 +38,12 @@ RefFold(h) ==
             [] e.op = "modify"    -> ModApply(c, e.m)
             [] e.op = "update"    -> RefUpdate(c, e.data, e.o)
 
+NoCase == [fmt |-> "", ss |-> 0, n |-> 0, o |-> 0, len |-> 0]
+
 Init ==
   IF Mode = "table"
-    THEN /\ case \in {k \in Cases : k.o <= k.n}
-         /\ fmt = case.fmt /\ ss = case.ss /\ content = Old(case.n) /\ hist = <<>>
-    ELSE /\ fmt \in Formats /\ ss \in SegSizes /\ case = [fmt |-> "", ss |-> 0, n |-> 0, o |-> 0, len |-> 0]
+    THEN /\ case = NoCase /\ fmt = "MDMF" /\ ss = 2 /\ content = <<>> /\ hist = <<>>
+    ELSE /\ fmt \in Formats /\ ss \in SegSizes /\ case = NoCase
          /\ \E n \in 0..MaxN :
               /\ content = Fresh(1, n)
               /\ hist = << [op |-> "create", data |-> Fresh(1, n)] >>
@@ -70,24 +71,32 @@ Update ==
     /\ content' = r.c
     /\ hist' = Append(hist, [op |-> "update", data |-> Fresh(Id, l), o |-> o])
 
+\* table mode: one step from the initial state to each case (so that the workers share the cases)
+Pick ==
+  /\ Mode = "table" /\ case = NoCase
+  /\ \E k \in Cases : k.o <= k.n /\ case' = k /\ fmt' = k.fmt /\ ss' = k.ss /\ content' = Old(k.n)
+  /\ UNCHANGED hist
+
 Next ==
-  /\ Mode = "seq"
-  /\ Len(hist) < MaxSteps
-  /\ (Overwrite \/ Modify \/ Update)
-  /\ UNCHANGED <<fmt, ss, case>>
+  \/ Pick
+  \/ /\ Mode = "seq"
+     /\ Len(hist) < MaxSteps
+     /\ (Overwrite \/ Modify \/ Update)
+     /\ UNCHANGED <<fmt, ss, case>>
 
 Spec == Init /\ [][Next]_vars
 
 (* ------------------------------ properties ----------------------------- *)
 \* table: the segment-wise update equals the reference for every case
 C09_UpdateRefines ==
-  Mode = "table" =>
+  (Mode = "table" /\ case # NoCase) =>
     LET r == ImplUpdate(case.fmt, Old(case.n), New(case.len), case.o, case.ss) IN
     r.ok /\ r.c = RefUpdate(Old(case.n), New(case.len), case.o)
 
 \* every read of the valid domain returns the reference sub-string (table: of the old file; seq: of every
 \* reachable file), for the segment size of the format
 C09_ReadRefines ==
+  (Mode = "table" => (case.o = 0 /\ case.len = 1)) =>     \* table: once per (format, size, segment size)
   \A o \in 0..Len(content), n \in 1..(Len(content) + 1) :
     ReadDomain(content, o, n) => ImplRead(content, o, n, CurSS) = RefRead(content, o, n)
 
